@@ -3,19 +3,33 @@ from .. import syscorr
 from ..framework import canon
 
 PROP = "C08"
-LEAN_TARGETS = ["Eliot.Properties.C08"]
+LEAN_TARGETS = ["Eliot.Properties.C08", "Eliot.Properties.C08Dyn"]
 AUDIT = "Eliot/Audit/C08.lean"
 THEOREMS = ["Sys.C08.prim", "Sys.C08.offered_same_everywhere", "Sys.C08.healthy_unaffected", "Sys.C08.run_offered_eq_stage",
             "Sys.C08.report_accounting", "Sys.C08.errors_bound", "Sys.C08.no_report_of_report", "Sys.C08.report_is_report",
-            "Sys.fan_deliver", "Sys.fan_send", "Sys.execB_lift"]
+            "Sys.fan_deliver", "Sys.fan_send", "Sys.execB_lift",
+            "Sys.C08.reg_preserved", "Sys.C08.calls_exact", "Sys.C08.offered_while_registered",
+            "Sys.C08.healthy_accepts_while_registered", "Sys.C08.nothing_before_first_add", "Sys.C08.offered_since",
+            "Sys.C08.unregistered_gets_nothing", "Sys.C08.removed_gets_nothing_after", "Sys.C08.removed_gets_nothing_after_run",
+            "Sys.C08.added_later_gets_nothing_before", "Sys.C08.offered_same_everywhere_reg", "Sys.C08.run_offered_eq_stage_reg",
+            "Sys.reg_deliver", "Sys.reg_addDests", "Sys.execB_liftQ"]
 RULE = ("random programs of the core language run against 1-4 destinations registered at the start, each with an independent "
         "failure mask over its call sequence (densities 0, p, 0.5, 1.0 = permanently broken; masks also hit the reports themselves), "
-        "plus a third of the cases with destinations added/removed mid-run (correspondence only); non-trivial = at least two "
+        "plus a third of the cases with destinations added/removed mid-run (correspondence, report-per-failure oracle and the "
+        "registration oracle: the calls of every run are, message by message, one call of each destination the harness has "
+        "registered at that moment, in registration order); non-trivial = at least two "
         "destinations and at least one injected destination failure actually reached; distinct by canonical hash")
 TRUSTED = ["global fields do not override message_type (otherwise the recursion guard does not recognise a report)",
            "destinations do not mutate the dict they are given and raise Exception subclasses only"]
-ASSUMPTIONS = ["offered_same_everywhere / healthy_unaffected are stated for runs that do not (un)register destinations while running (C12 covers that)"]
-EXPLANATION = "Fan relation (each registered destination is offered exactly the staged messages) proved for every primitive and lifted to all programs"
+ASSUMPTIONS = ["'exactly once' is stated for runs in which no add_destinations call leaves a destination registered twice (ghost flag dupAdd); "
+               "otherwise the theorems say 'once per registration'",
+               "single-threaded runs (registration racing with sends on other threads is C12)"]
+EXPLANATION = ("Fan relation (each registered destination is offered exactly the staged messages) proved for every primitive and lifted to "
+               "all programs without configuration statements; for ALL programs (add_destinations / remove_destination anywhere, start-up "
+               "buffer re-delivered by the first add) the registration invariant Reg - the call sequence is, staged entry by staged entry, "
+               "one call of each destination registered when the entry was staged (ghost World.stageAt) - is proved for every basic step "
+               "and configuration statement and lifted: offered_while_registered, healthy_accepts_while_registered, calls_exact, and the "
+               "corollaries for removed / later-added destinations")
 PROFILE_FIXED = dict(p_late_add=0.0, p_remove=0.0, n_dests=(2, 4), p_dest_fail=0.3, p_handles=0.2, p_remote=0.1, p_globals=0.1)
 PROFILE_DYN = dict(p_late_add=0.4, p_remove=0.2, n_dests=(1, 3), p_dest_fail=0.3)
 
@@ -31,6 +45,45 @@ def fixed_dests(case):
                     return True
         return False
     return bool(prog) and prog[0]["op"] == "addDests" and not has_cfg(prog[1:])
+
+
+def registration_oracle(ctx, case, real, rt):
+    """Every program, also with destinations added/removed while it runs: the sequence of destination calls is, message by
+    message, exactly one call of each destination registered at that moment, in registration order (so: nobody unregistered is
+    called, nobody registered is skipped, nothing is offered twice, nothing from before a destination's registration reaches it
+    except the start-up backlog delivered by the first add_destinations). `rt.offered_reg` is the harness's own record of the
+    registered destinations (from the add/remove calls it made, not from eliot's state) at each call. Returns True on a violation."""
+    calls, regs = rt.offered, rt.offered_reg
+    i = 0
+    while i < len(calls):
+        reg = regs[i]
+        if not reg:
+            ctx.violation("destination %d was called while the harness had no destination registered" % calls[i][0], case,
+                          key={"oracle": "registration", "kind": "unregistered-called"})
+            return True
+        group = calls[i:i + len(reg)]
+        if [c[0] for c in group] != reg:
+            ctx.violation("with destinations %s registered one message was offered to %s (expected: each registered destination "
+                          "exactly once, in registration order)" % (reg, [c[0] for c in group]), case,
+                          key={"oracle": "registration", "kind": "fan-out-set"})
+            return True
+        if any(canon(c[1]) != canon(group[0][1]) for c in group) or any(regs[j] != reg for j in range(i, i + len(group))):
+            ctx.violation("the destinations %s registered together were not offered the same message in one fan-out" % reg, case,
+                          key={"oracle": "registration", "kind": "fan-out-message"})
+            return True
+        i += len(reg)
+    ctx.count("fanouts_checked_against_registration", n=sum(1 for _ in calls))
+    if any(s["op"] in ("addDests", "removeDest") for s in _flat(case["prog"][1:])):
+        ctx.count("runs_with_registration_changes")
+    return False
+
+
+def _flat(b):
+    for s in b:
+        yield s
+        for k in ("body", "handler"):
+            if k in s:
+                yield from _flat(s[k])
 
 
 def nontrivial(case, real, st):
@@ -50,6 +103,8 @@ def oracle(ctx, case, real, rt):
         if n_rep < n_fail:
             ctx.violation("destination %d failed on %d ordinary messages but was offered only %d eliot:destination_failure reports" % (d, n_fail, n_rep), case)
             return
+    if registration_oracle(ctx, case, real, rt):
+        return
     if not fixed_dests(case):
         return
     ds = case["prog"][0]["ds"]
